@@ -34,6 +34,8 @@ Definition Qc_eqb (a b : Qc) : bool := Qeq_bool (this a) (this b).
 (* ------------------------------------------------------------------------------------------ data *)
 Record mono := Mono { mc : Qc; mx : nat; mk : nat; mr : nat }.
 Definition poly := list mono.
+(* a class stands for (equations, declarations of the variables): node types with equal equations whose variables are
+   declared differently (k by an integer literal, x as `variable`) are different classes and never merged *)
 Record cls := Cls { cf : poly; cg : option poly; crdef : Qc }.
 Record node := Node { ncls : nat; nk : Qc }.
 (* an edge may be written without a 'weight' entry (ewo = None): add_edge / _group_edges (fix D46:
@@ -394,7 +396,8 @@ Definition finalize (l : list Qc) : cval :=
    optional algebraic output m = g(x,k); `ofeed` = positions of the operators of the same node whose output x feeds this
    operator's input by name (summed), such an operator receives no edges.
    - structural key of a node = the list of operator structures: operator names and values are not in it, the
-     multiplicity and order are (OperatorGraph.__hash__ = hash(tuple(operators.values())), fix against seed C04-m2);
+     multiplicity and order are, and so is the way the variables are DECLARED (vtype, dtype, shape: `odecl`, a code for
+     the declaration signature — ProtectedVariableDict hashes the (name, vtype, dtype, shape) tuples; seed C01-m6) (OperatorGraph.__hash__ = hash(tuple(operators.values())), fix against seed C04-m2);
      `canon` = first declared type with the same structure list;
    - cache_func (ir/node.py:60-90, fix D58): the operators of a node that is merged into a cached node are matched, in
      order, with the first not yet taken cached operator of the same structure (`match_ops`), and the operator keys of the
@@ -406,12 +409,12 @@ Definition finalize (l : list Qc) : cval :=
      the SAME pipeline as above (group_edges, merged, contrib, input_of), with frontend variables flattened to numbers
      (`voff c n + o`) and a vector variable named by the flattened number of the cached node's variable.
    The code modelled is the current one (D46, D57, D58, D59, D85, D86 included): no Err outcome. *)
-Record opr := Opr { of_ : poly; og : option poly; ordef : Qc; ofeed : list nat }.
+Record opr := Opr { of_ : poly; og : option poly; ordef : Qc; ofeed : list nat; odecl : nat }.
 Record mnode := MNode { mncls : nat; mnames : list nat; mnk : list Qc }.
 Record medge := MEdge { mesrc : nat; meso : nat; mesv : bool; metgt : nat; meto : nat; mewo : option Qc }.
 Record mcircuit := MCirc { mccls : list (list opr); mcnodes : list mnode; mcedges : list medge }.
 
-Definition dopr : opr := Opr [] None 0 [].
+Definition dopr : opr := Opr [] None 0 [] 0.
 Definition dmnode : mnode := MNode 0 [] [].
 Definition mn (c : mcircuit) (n : nat) : mnode := nth n (mcnodes c) dmnode.
 Definition cops (c : mcircuit) (ci : nat) : list opr := nth ci (mccls c) [].
@@ -462,7 +465,7 @@ Definition opt_eqb {A} (f : A -> A -> bool) (a b : option A) : bool :=
   match a, b with Some x, Some y => f x y | None, None => true | _, _ => false end.
 Definition opr_eqb (a b : opr) : bool :=
   list_eqb mono_eqb (of_ a) (of_ b) && opt_eqb (list_eqb mono_eqb) (og a) (og b) && Qc_eqb (ordef a) (ordef b) &&
-  list_eqb Nat.eqb (ofeed a) (ofeed b).
+  list_eqb Nat.eqb (ofeed a) (ofeed b) && (odecl a =? odecl b).
 Definition ops_eqb : list opr -> list opr -> bool := list_eqb opr_eqb.
 
 (* the structural hash: the first declared type with the same list of operator structures *)
